@@ -247,13 +247,66 @@ func (c *chainWrap) IsInBlackList(b *types.Block) bool { return c.bc.IsInBlackLi
 type poolWrap struct {
 	r    *rig
 	pool *txpool.TxPool
+	// the interleaving "a block is inserted while the handler's goroutines are between their look at the chain and
+	// AddTx": while gate is set, every AddTx call parks right after its begin event (guarded by r.mu)
+	gate   chan struct{}
+	parked int
+}
+
+func (p *poolWrap) hold() {
+	p.r.mu.Lock()
+	p.gate = make(chan struct{})
+	p.r.mu.Unlock()
+}
+
+func (p *poolWrap) release() {
+	p.r.mu.Lock()
+	g := p.gate
+	p.gate = nil
+	p.r.mu.Unlock()
+	if g != nil {
+		close(g)
+	}
+}
+
+func (p *poolWrap) parkedNow() int {
+	p.r.mu.Lock()
+	defer p.r.mu.Unlock()
+	return p.parked
+}
+
+// quiet: with the gate closed, every one of the alive handler goroutines is parked at it; with the gate open none is alive
+// (a goroutine that has been released but has not run yet still counts as parked: it is not done).
+func (p *poolWrap) quiet(alive int) bool {
+	p.r.mu.Lock()
+	defer p.r.mu.Unlock()
+	if p.gate == nil {
+		return alive == 0
+	}
+	return alive == p.parked
 }
 
 func (p *poolWrap) GetTxs(time uint32, size int) types.Transactions { return p.pool.GetTxs(time, size) }
+
+// DelTxs is not part of network.TxPool at the time of writing; it is here so that a manager that takes a transaction back
+// out of the pool (e.g. after looking at the chain a second time) can be driven too.
+func (p *poolWrap) DelTxs(txs types.Transactions) { p.pool.DelTxs(txs) }
 func (p *poolWrap) AddTx(tx *types.Transaction) error {
 	who := callerName()
 	h := tx.Hash()
 	p.r.add(ev{kind: "AddTx.begin", caller: who, hash: h})
+	p.r.mu.Lock()
+	g := p.gate
+	if g != nil {
+		p.parked++
+	}
+	p.r.mu.Unlock()
+	if g != nil {
+		<-g
+		p.r.mu.Lock()
+		p.parked--
+		p.r.mu.Unlock()
+	}
 	err := p.pool.AddTx(tx)
 	e := ev{kind: "AddTx.end", caller: who, hash: h, ok: err == nil}
 	if err != nil {
@@ -361,10 +414,13 @@ type nut struct {
 	pool   *txpool.TxPool
 	bc     *chain.BlockChain
 	cw     *chainWrap
+	pw     *poolWrap
 	pm     *network.ProtocolManager
 	peer   *mockPeer
 	bcache *network.BlockCache
 	ccache *network.ConfirmCache
+
+	stopped bool
 }
 
 // newChain assembles the chain exactly like the node does (store, genesis, deputy manager, pool, chain.NewBlockChain).
@@ -434,7 +490,8 @@ func startNut(w *node.World, dir string, tipHeight uint32, tipHash common.Hash) 
 	var self p2p.NodeID
 	copy(self[:], deputynode.GetSelfNodeID())
 	discover := p2p.NewDiscoverManager(dir)
-	n.pm = network.NewProtocolManager(node.ChainID, self, n.cw, n.dm, &poolWrap{r: n.r, pool: n.pool}, n.bc.TxGuard(), discover, 10, 1, dir)
+	n.pw = &poolWrap{r: n.r, pool: n.pool}
+	n.pm = network.NewProtocolManager(node.ChainID, self, n.cw, n.dm, n.pw, n.bc.TxGuard(), discover, 10, 1, dir)
 	n.bcache = (*network.BlockCache)(unexportedPtr(n.pm, "blockCache"))
 	n.ccache = (*network.ConfirmCache)(unexportedPtr(n.pm, "confirmsCache"))
 	n.pm.Start()
@@ -455,7 +512,18 @@ func startNut(w *node.World, dir string, tipHeight uint32, tipHash common.Hash) 
 // stop ends the peer session through the manager's own error path (an unknown message code), stops the
 // manager's loops and the chain, and removes the data directory.
 func (n *nut) stop() {
+	// (a stop that fails half way - a harness failure - must not be tried again by the adapter's Close: the manager's Stop
+	// is not made to be called twice)
+	if n.stopped {
+		return
+	}
+	n.stopped = true
 	if n.pm != nil {
+		// A behaviour may end while a cached block is insertable.  The manager's queue timer would hand it to the engine at
+		// any moment - also right after the manager's loops have been stopped, and then the stable-block event of that insert
+		// is taken off the bus by nobody (or by the NEXT behaviour's manager).  So let the timer do its work first; if it
+		// does not within a few periods, go on (the strict wait below then reports what is left).
+		n.softDrain(3 * time.Second)
 		n.peer.push(p2p.MsgCode(0x7f), []byte{0xc0})
 		n.r.wait("peer session closed by the manager", func(evs []ev) bool {
 			return count(evs, 0, func(e ev) bool { return e.kind == "close" }) >= 1
@@ -541,6 +609,62 @@ func settledIn(evs []ev) bool {
 		}
 	}
 	return begIns == endIns && begConf == endConf && begIns >= expIns && goConf >= expConf && stReceived >= stChanged
+}
+
+// txHandlerGoroutines counts the goroutines the transaction handler started (and has not finished yet): whatever
+// their body looks like, the runtime's goroutine dump names the function whose go statement created them.
+func txHandlerGoroutines() int {
+	buf := make([]byte, 1<<16)
+	for {
+		k := runtime.Stack(buf, true)
+		if k < len(buf) {
+			buf = buf[:k]
+			break
+		}
+		buf = make([]byte, 2*len(buf))
+	}
+	c := 0
+	for _, g := range strings.Split(string(buf), "\n\n") {
+		if strings.Contains(g, "created by ") && strings.Contains(g[strings.LastIndex(g, "created by "):], ".(*ProtocolManager).handleTxsMsg") {
+			c++
+		}
+	}
+	return c
+}
+
+// waitTxHandlers waits until every goroutine the transaction handler started has ended - or, with the AddTx gate
+// closed, until each of them has either ended or is parked inside AddTx.
+func (n *nut) waitTxHandlers(what string) {
+	deadline := time.Now().Add(waitLimit)
+	for {
+		if n.pw.quiet(txHandlerGoroutines()) {
+			return
+		}
+		if time.Now().After(deadline) {
+			engine.Failf("sync harness: %d goroutines of the transaction handler still running %v after %s (%d parked in AddTx)", txHandlerGoroutines(), waitLimit, what, n.pw.parkedNow())
+		}
+		time.Sleep(200 * time.Microsecond)
+	}
+}
+
+// softDrain waits, at most for `limit`, until no cached block has a known parent and everything has settled.
+func (n *nut) softDrain(limit time.Duration) {
+	deadline := time.Now().Add(limit)
+	for time.Now().Before(deadline) {
+		insertable := false
+		for _, b := range n.cachedBlocks() {
+			if n.bc.HasBlock(b.ParentHash()) {
+				insertable = true
+			}
+		}
+		n.r.mu.Lock()
+		ok := !insertable && settledIn(n.r.evs)
+		n.r.mu.Unlock()
+		if ok {
+			return
+		}
+		time.Sleep(2 * time.Millisecond)
+	}
 }
 
 func (n *nut) waitSettled(what string) {
